@@ -178,10 +178,28 @@ def reason(r):
                      "unknown critical option \"foo\"", "", " ", word(r, 1, 40, NAMECH + " :,")])
 
 
+KEYWORDS_EARLY = ["Accepted publickey", "Accepted password", "Certificate invalid", "Invalid user", "User ", "Failed password for ",
+                  "maximum authentication attempts exceeded for "]
+
+
 def evil_name(r):
     """client-chosen names for C17: spaces, ' from ', ' port ', embedded well-formed fragments"""
     a = ".".join(str(r.below(256)) for _ in range(4))
-    k = r.below(12)
+    k = r.below(16)
+    if k == 12:
+        # the name embeds (the start of) another sshd message, complete with its own address and port
+        return r.choice(["Accepted password for root from %s port 22 ssh2", "bob Accepted password for root from %s port 22 ssh2",
+                         "Accepted publickey for root from %s port 22 ssh2: ED25519 SHA256:abc", "Accepted password for x",
+                         "Invalid user y from %s port 1", "Failed password for z from %s port 2 ssh2",
+                         "x Certificate invalid: expired", "ROOT LOGIN REFUSED FROM %s port 9"]).replace("%s", a)
+    if k == 13:
+        return r.choice(KEYWORDS_EARLY) + word(r, 0, 10)
+    if k == 14:
+        # as long as sshd lets a name be (100 bytes), with and without an embedded fragment
+        n = 80 + r.below(21)
+        return ("x" * n) if r.below(2) else ("y" * (n - 30) + " from 10.6.6.6 port 1 " + "z" * 30)[:100]
+    if k == 15:
+        return word(r, 88, 100)
     if k == 0:
         return "foo bar"
     if k == 1:
